@@ -164,16 +164,21 @@ def _fix_variable_names(
 def _fix_undefined_variables(source: str, variables: Collection[str]) -> str:
     variables = set(variables)
 
-    lines = source.splitlines()
+    # Only a line feed ends a line here: a form feed and the like may be part of a string
+    lines = source.split("\n")
+    if lines[-1] == "":
+        lines.pop()
     change_count = -len(lines)
-    lineno = next(
-        i
-        for i, line in enumerate(lines)
-        if not line.startswith("#")
-        and not line.startswith("'''")
-        and not line.startswith('"""')
-        and not line.startswith("from __future__ import")
-    )
+    lineno = 0
+    # Imports go below the docstring and the __future__ imports, however many lines these cover
+    for i, node in enumerate(core.parse(source).body):
+        is_docstring = i == 0 and core.match_template(node, ast.Expr(value=ast.Constant(value=str)))
+        if is_docstring or core.match_template(node, ast.ImportFrom(module="__future__")):
+            lineno = node.end_lineno
+        else:
+            break
+    while lineno < len(lines) and lines[lineno].startswith("#"):
+        lineno += 1
     for package, package_variables in constants.ASSUMED_SOURCES.items():
         overlap = variables.intersection(package_variables)
         if overlap:
